@@ -23,10 +23,10 @@ from bacpypes.npdu import NPDU, WhoIsRouterToNetwork, IAmRouterToNetwork
 
 external("bacpypes.netservice:NetworkAdapter.process_npdu", "to_net", method=False)
 external("bacpypes.comm:Server.response", "to_up")
-external("bacpypes.comm:ServiceAccessPoint.sap_request", "to_nse")
+external("bacpypes.comm:ServiceAccessPoint.sap_request", "to_app")
 external("bacpypes.netservice:NetworkServiceAccessPoint.sap_indication", "from_nse")
-external("bacpypes.comm:ApplicationServiceElement.request", "nse_ask")
-external("bacpypes.comm:ApplicationServiceElement.response", "nse_out")
+external("bacpypes.comm:ApplicationServiceElement.request", "ase_request")
+external("bacpypes.comm:ApplicationServiceElement.response", "reply")
 
 def calls(channel):
     """calls on a channel: the first argument (an adapter) by identity, the PDU with its fields as they were at the moment of the call"""
@@ -162,7 +162,7 @@ for _router in (True, False):
             requires=["not (kind(npdu.npduDADR) in ('rs', 'rb') and npdu.npduDADR.addrNet == 5 and self.ghost_knows5 and %d == 2)" % _net,
                       "npdu.pduData[0] == 0x10 and npdu.pduData[1] == 0x08"],        # an unconfirmed Who-Is header: routing never looks at the payload
             ensures=["routed_ok(self, %d, npdu, calls('to_net'), trace_then('to_up'), calls('from_nse'), old(bytes(npdu.pduData)), old(npdu.npduHopCount))" % _net,
-                     "learned_ok(self, %d, npdu)" % _net, "len(trace('to_nse')) == 0"],
+                     "learned_ok(self, %d, npdu)" % _net, "len(trace('to_app')) == 0"],
             modifies=["self.router_info_cache.*", "self.router_info_cache.routers", "self.router_info_cache.path_info"], max_paths=20000,
             note="every destination class (none, this station, stations / broadcasts on attached networks, global broadcast, a network behind a known router, an unknown "
                  "network) x source routing present or not x any hop count; excluded: a destination behind a router that sits on the arrival network itself")
@@ -262,5 +262,5 @@ for _net in (1, 2, 3):
     contract("bacpypes.netservice:NetworkServiceElement.WhoIsRouterToNetwork",
         name="bacpypes.netservice:NetworkServiceElement.WhoIsRouterToNetwork[router, asked on network %d]" % _net,
         params={"self": NSE(), "adapter": Fn(lambda b, name, _net=_net: b.built['self'].elementService.adapters[_net]), "npdu": WhoIs()},
-        ensures=["who_is_ok(self, %d, npdu, calls('nse_out'), calls('nse_ask'))" % _net],
+        ensures=["who_is_ok(self, %d, npdu, calls('reply'), calls('ase_request'))" % _net],
         modifies=[], max_paths=20000)
